@@ -64,7 +64,8 @@ type Contract struct {
 	Inline     bool
 	Trusted    string
 	MayPanic   bool
-	Pure       bool
+	Pure       bool // modifies nothing visible to the caller (checked on the body), deterministic
+	Det        bool // result and effects are functions of the inputs (every callee is det)
 	Opaque     bool
 	Props      []string
 	File       string
@@ -75,6 +76,7 @@ type Contract struct {
 	EnsuresAssumed []Clause // postconditions used at call sites but NOT proved on the body (listed as assumptions)
 	Fresh      bool // result is a fresh object (extern)
 	LockChans  []string
+	Callsback  []string // extern: the callee acts only through these methods of its first argument
 }
 
 type SpecFunc struct {
@@ -476,10 +478,15 @@ func (db *SpecDB) loadText(data, path, pkgPath string, extern bool) error {
 				cur.Props = append(cur.Props, strings.Fields(rest)...)
 			case "inline":
 				cur.Inline = true
+			case "callsback":
+				cur.Callsback = append(cur.Callsback, strings.Fields(rest)...)
 			case "maypanic":
 				cur.MayPanic = true
-			case "pure", "det":
+			case "pure":
 				cur.Pure = true
+				cur.Det = true
+			case "det":
+				cur.Det = true
 			case "fresh":
 				cur.Fresh = true
 			case "nobody":
@@ -552,6 +559,8 @@ func specSort(s string) string {
 	switch s {
 	case "bool":
 		return SBool
+	case "val":
+		return "val"
 	}
 	return SInt
 }
@@ -637,6 +646,7 @@ type SpecEnv struct {
 	locals  func(name string) (Val, bool)
 	inOld   bool
 	callSite bool // evaluating a callee's postcondition as an assumption
+	freshLo  Term // call site: objects allocated by the callee are above this
 	facts   []Term
 	what    string
 }
@@ -1232,6 +1242,29 @@ func (env *SpecEnv) evalCall(x *ast.CallExpr) Val {
 	case "content":
 		v := arg(0)
 		return intVal(env.cur().bytesOf(v))
+	case "suffix":
+		// suffix(a, b, k): slice a is b[k:]
+		a, b, k := arg(0), arg(1), arg(2).term()
+		if len(a.L) != 4 || len(b.L) != 4 {
+			specFail("suffix() needs two slices")
+		}
+		return boolVal(And(Eq(a.L[0], b.L[0]), Eq(a.L[1], Add(b.L[1], k)), Eq(a.L[2], Sub(b.L[2], k))))
+	case "typetag":
+		return intVal(arg(0).L[0])
+	case "as":
+		// as(x, "*pkg.T"): view an interface payload (or reference) as a pointer of that type
+		v := arg(0)
+		lit, ok := x.Args[1].(*ast.BasicLit)
+		if !ok {
+			specFail("as needs a string literal type name")
+		}
+		name, _ := strconv.Unquote(lit.Value)
+		tag := env.st.ctx.eng.tagByName(name)
+		t := env.st.ctx.eng.typeOfTag(tag)
+		ref := v.L[len(v.L)-1]
+		out := Val{T: t, L: []Term{ref}}
+		env.st.decorate(&out)
+		return out
 	case "catAll":
 		v := arg(0)
 		return intVal(env.cur().catAll(v))
@@ -1275,8 +1308,25 @@ func (env *SpecEnv) evalCall(x *ast.CallExpr) Val {
 	case "isfresh":
 		v := arg(0)
 		if env.callSite {
-			// allocated by the callee: a reference distinct from everything the caller knows
-			return boolVal(Eq(v.L[0], env.st.newRef()))
+			// allocated by the callee: above everything the caller had, below the new frontier,
+			// distinct from the other fresh results of this call
+			st := env.st
+			cs := []Term{Gt(v.L[0], env.freshLo), Le(v.L[0], st.frontierTerm())}
+			for _, o := range st.callFresh {
+				if o.S != v.L[0].S {
+					cs = append(cs, Ne(v.L[0], o))
+				}
+			}
+			dup := false
+			for _, o := range st.callFresh {
+				if o.S == v.L[0].S {
+					dup = true
+				}
+			}
+			if !dup {
+				st.callFresh = append(st.callFresh, v.L[0])
+			}
+			return boolVal(And(cs...))
 		}
 		a0 := env.st.ctx.declare("A0", SInt)
 		return boolVal(Gt(v.L[0], a0))
@@ -1284,6 +1334,18 @@ func (env *SpecEnv) evalCall(x *ast.CallExpr) Val {
 		v := arg(0)
 		a0 := env.st.ctx.declare("A0", SInt)
 		return boolVal(Le(v.L[0], a0))
+	}
+	if strings.HasPrefix(fname, "g_") && len(x.Args) == 1 {
+		v := arg(0)
+		if len(v.L) == 0 {
+			specFail("%s: argument has no reference", fname)
+		}
+		idx := v.L[len(v.L)-1]
+		if _, isSl := v.T.Underlying().(*types.Slice); isSl {
+			idx = v.L[0]
+		}
+		h := env.cur().heapTerm("G#"+fname[2:], SInt, false)
+		return intVal(Select(h, idx))
 	}
 	// conversion to a package-level named type?
 	if env.pkg != nil {
@@ -1299,8 +1361,14 @@ func (env *SpecEnv) evalCall(x *ast.CallExpr) Val {
 			specFail("%s: %d arguments expected", fname, len(sf.Params))
 		}
 		var args []Term
+		var vals []Val
 		for i := range x.Args {
 			v := arg(i)
+			vals = append(vals, v)
+			if sf.PSorts[i] == "val" {
+				args = append(args, Term{})
+				continue
+			}
 			if len(v.L) != 1 {
 				// composite argument: pass the first leaf of pointers/strings; slices pass content id
 				if _, isSl := v.T.Underlying().(*types.Slice); isSl {
@@ -1326,7 +1394,9 @@ func (env *SpecEnv) evalCall(x *ast.CallExpr) Val {
 				} else {
 					saved[p] = nil
 				}
-				if sf.PSorts[i] == SBool {
+				if sf.PSorts[i] == "val" {
+					env.vars[p] = vals[i]
+				} else if sf.PSorts[i] == SBool {
 					env.vars[p] = boolVal(args[i])
 				} else {
 					env.vars[p] = intVal(args[i])
